@@ -96,7 +96,7 @@ def run(ctx):
                 for p in [n for n, t in A.types.items() if t in ("bb_input", "bb_output")]:
                     if B.types.get(p) != A.types[p]:
                         pinbad.append((p, "missing"))
-                    elif A.types[p] == "bb_input" and B.preds[p] != A.preds[p] and not (A.preds[p] and A.types[A.preds[p][0]] in ("0", "1", "x")):
+                    elif A.types[p] == "bb_input" and B.preds[p] != A.preds[p]:
                         pinbad.append((p, B.preds[p], A.preds[p]))
                     elif A.types[p] == "bb_output" and B.succs[p] != A.succs[p]:
                         pinbad.append((p, B.succs[p], A.succs[p]))
